@@ -207,11 +207,17 @@ pub struct RefRun {
     pub br_not: [u32; 256],
     pub neg_ldabs: bool,
     pub xadd_done: u32,
+    pub alt_diverged: Vec<u8>,
 }
 
 /// Run the reference machine on the same case, with the addresses the interpreter actually used.
 /// `fixed_mbuff`: content of the fixed VM's internal buffer at entry (zeros + the two pointers).
 pub fn run_ref(c: &Case, bufs: &Bufs, ir: &InterpRun, budget: u64, trace_cap: usize, extra: Vec<Region>) -> RefRun {
+    run_ref_alt(c, bufs, ir, budget, trace_cap, extra, false)
+}
+
+/// `alt`: run with the alternative (known-finding) semantics, see RefVm::alt_zext_unsigned_imm.
+pub fn run_ref_alt(c: &Case, bufs: &Bufs, ir: &InterpRun, budget: u64, trace_cap: usize, extra: Vec<Region>, alt: bool) -> RefRun {
     bufs.reset(c);
     let (pa, pl) = bufs.pkt_raw();
     let pkt_addr = if pl == 0 { 0u64 } else { pa as u64 };
@@ -273,6 +279,7 @@ pub fn run_ref(c: &Case, bufs: &Bufs, ir: &InterpRun, budget: u64, trace_cap: us
         helper_fn: &hf,
         frame_size_of: &ff,
         trace_cap,
+        alt_zext_unsigned_imm: alt,
     });
     let outcome = vm.run(budget);
     let (pkt_after, pkt_clean) = match pkt_idx {
@@ -301,6 +308,7 @@ pub fn run_ref(c: &Case, bufs: &Bufs, ir: &InterpRun, budget: u64, trace_cap: us
         br_not: vm.br_not,
         neg_ldabs: vm.neg_ldabs,
         xadd_done: vm.xadd_done,
+        alt_diverged: vm.alt_diverged.clone(),
     }
 }
 
@@ -456,7 +464,15 @@ pub enum EngineEnd {
 /// Run all `cases` on a compiled engine in forked children.
 #[cfg(feature = "std")]
 pub fn run_compiled(cases: &[(&Case, &Bufs)], engine: Engine, family: Family) -> Vec<EngineEnd> {
-    let ends = sys::run_batch(cases.len(), 20, |i, out| {
+    run_compiled_lim(cases, engine, family, 30, 40)
+}
+
+/// `cpu_batch`: CPU seconds for the whole batch; `cpu_alone`: for the re-run of a case that was
+/// running when the batch limit hit (a case that exhausts that too has diverged: the interpreter
+/// finished the same program within the step budget, i.e. in milliseconds).
+#[cfg(feature = "std")]
+pub fn run_compiled_lim(cases: &[(&Case, &Bufs)], engine: Engine, family: Family, cpu_batch: u64, cpu_alone: u64) -> Vec<EngineEnd> {
+    let ends = sys::run_batch(cases.len(), cpu_batch, cpu_alone, |i, out| {
         let (c, b) = cases[i];
         child_run_case(c, b, engine, family, out);
     });
